@@ -5,12 +5,17 @@
    C11_bookkeeping_invisible: the imaginary matches of filters, recursion and nested searches do not show in the
    chain.  C11_eq: Match.__eq__ is equality of the parent chains (data with Python ==, data_name), so equal
    values under equal keys in different places are different matches (C11_eq_needs_names).
-   UNDISCHARGED: the round trip get_match(m.path, document) and "never the same location twice" (at most one
-   recursive step, no comma list) need unique dict keys as an extra hypothesis and are not proved; both are
-   direct oracles of this check's correspondence run. *)
+   C11_chain_is_true: in a document with unique dict keys every context a parent-free path produces (filters,
+   recursion, wildcards, slices, negative indices as written) is a true chain: the steps read off it
+   (match_to_path) lead from the document to the very node it holds.  C11_round_trip: get_match(m.path, document)
+   on the model of the API finds a match holding the object m holds (or the search dies of its budget, F1).
+   C11_no_location_twice(_rec): a parent-free path without comma-delimited steps and with no / exactly one
+   recursive step yields no two results at the same location, where a location is the chain of positions from
+   the root (key in a dict, normalised non-negative index in a list: C11_location_example shows that $[-1] and
+   $[2] of a three-item list are one location). *)
 From Coq Require Import List ZArith String Bool PArith.
-From TP Require Import Json PyPrim Machine Spec Obs.
-From TP.proofs Require Import RefineBase Refine NextLayer Iterate WfRun MatchLemmas.
+From TP Require Import Json PyPrim Machine Api Spec SpecHas Mutate SpecSet Obs Dsl Run.
+From TP.proofs Require Import RefineBase Refine NextLayer Iterate WfRun SpecLemmas BelowLemmas MatchLemmas RoundTrip RoundTripApi NoTwice.
 Import ListNotations.
 
 Theorem C11_value_at_chain : forall m : jtm, wf m -> cdata (abs m) = tdata m.
@@ -46,3 +51,38 @@ Theorem C11_eq_needs_names : forall a b : jtm,
     match_eq a b = true -> name_eqb (data_name a) (data_name b) = true.
 Proof. exact match_eq_needs_equal_names. Qed.
 Print Assumptions C11_eq_needs_names.
+
+Theorem C11_chain_is_true :
+  forall (sev : hp -> jctx -> res json * list sevent) doc p c',
+    uniq doc -> no_parent p -> In c' (deval hp sev p (root_ctx doc)) ->
+    lookup doc (steps_of c') = Some (cdata c') /\ kipath (steps_of c') = true.
+Proof. exact round_trip_spec. Qed.
+Print Assumptions C11_chain_is_true.
+
+Theorem C11_round_trip :
+  forall (B H : positive) (depth : nat) doc (p : list (vertex hp)) (m : jtm) tr,
+    uniq doc -> no_parent p -> wf m ->
+    In (abs m) (deval hp (seval_h depth) p (root_ctx doc)) ->
+    let r := fst (jget_match B H depth (SrcDoc doc) (explicit_path m) true tr) in
+    (exists pm, r = Ok (Some pm) /\ tdata pm = tdata m) \/ (exists e, r = Exn e /\ budget_exn e = true).
+Proof. exact get_match_round_trip. Qed.
+Print Assumptions C11_round_trip.
+
+Theorem C11_no_location_twice :
+  forall doc (sev : hp -> jctx -> res json * list sevent),
+    uniq doc -> forall q, simple q = true -> NoDup (map (loc doc) (deval hp sev q (root_ctx doc))).
+Proof. exact no_location_twice_simple. Qed.
+Print Assumptions C11_no_location_twice.
+
+Theorem C11_no_location_twice_rec :
+  forall doc (sev : hp -> jctx -> res json * list sevent),
+    uniq doc -> forall q1 q2, simple q1 = true -> simple q2 = true ->
+    NoDup (map (loc doc) (deval hp sev (q1 ++ VRec :: q2) (root_ctx doc))).
+Proof. exact no_location_twice_rec. Qed.
+Print Assumptions C11_no_location_twice_rec.
+
+Example C11_location_example :
+  let d := JList 1 [JInt 5; JInt 6; JInt 7] in
+  loc d (ext (root_ctx d) (NInt (-1)) (JInt 7)) = loc d (ext (root_ctx d) (NInt 2) (JInt 7)) /\
+  loc d (ext (root_ctx d) (NInt 2) (JInt 7)) = [Some (PI 2)].
+Proof. split; reflexivity. Qed.
